@@ -50,6 +50,14 @@ def gen_case(rng, tier, index):
         hist.append(cur)
         edits.append({"edit": e, "jobs": rng.choice([1, 1, 2, 4]), "sched_seed": rng.getrandbits(32),
                       "repeat": rng.random() < 0.35})
+        if e["kind"] == "src_modify" and rng.random() < 0.4 and cur["recipes"].get(e["path"].split("/")[1], {}).get("build"):
+            # this edit breaks the build; the user takes it back (develop-mode path pattern: harmless no-op otherwise)
+            edits[-1]["broken"] = {"match": "/%s/%s/" % (rng.choice(["build", "dist"]), e["path"].split("/")[1]), "at": rng.randint(2, 10)}
+            edits[-1]["repeat"] = False
+            rv = {"kind": "revert", "to": len(hist) - 2}
+            cur = projgen.apply_edit(cur, rv, hist)
+            hist.append(cur)
+            edits.append({"edit": rv, "jobs": 1, "sched_seed": rng.getrandbits(32), "repeat": rng.random() < 0.5})
     return {"model": model, "edits": edits, "develop": rng.random() < 0.7,
             "jobs0": rng.choice([1, 2, 4]), "seed0": rng.getrandbits(32)}
 
@@ -81,6 +89,26 @@ def directed_cases(tier):
                     "edits": [{"edit": e, "jobs": rng.choice([1, 2]), "sched_seed": rng.getrandbits(32), "repeat": i == 0}
                               for i, e in enumerate(edits)],
                     "directed": "checkout-only edits of a deterministic checkout"})
+    # an edit of an imported source breaks the build (the consuming step fails after partial output),
+    # the edit is taken back, the incremental build must equal the clean build of the original state
+    made = 0
+    tries = 0
+    while made < (8 if tier == "thorough" else 3) and tries < 200:
+        tries += 1
+        model = projgen.gen_valid_project(rng, features={"import", "vars", "diamond"} | set(rng.sample(["tools", "classes", "depenv"], rng.randint(0, 1))))
+        e = projgen.gen_edit(rng, model, [model], ["src_modify"]) if model["sources"] else None
+        if e is None:
+            continue
+        rn = e["path"].split("/")[1]
+        if not model["recipes"][rn]["build"]:
+            continue
+        step = ["build", "dist"][made % 2]
+        edits = [{"edit": e, "jobs": 1, "sched_seed": rng.getrandbits(32), "repeat": False,
+                  "broken": {"match": "/%s/%s/" % (step, rn), "at": rng.randint(3, 9)}},
+                 {"edit": {"kind": "revert", "to": 0}, "jobs": 1, "sched_seed": rng.getrandbits(32), "repeat": True}]
+        out.append({"model": model, "develop": True, "jobs0": 1, "seed0": rng.getrandbits(32), "edits": edits,
+                    "directed": "source edit breaks the build, edit taken back"})
+        made += 1
     # content of a *tool* changes (source edit below the tool provider, no Variant-Id changes):
     # every step that uses the tool has to re-run
     for k in range(4 if tier == "thorough" else 2):
@@ -133,6 +161,20 @@ def run_case(case):
                 files = projgen.materialise(new, proj, clock, files)
                 model = new
                 stats.inc("edit_" + st["edit"]["kind"])
+            if st.get("broken"):
+                # the edit "broke the build": the step that consumes the edited source fails after partial
+                # output (failure attributed to the new input; the next edit takes it back)
+                b = st["broken"]
+                rb = buildsim.bob(proj, cmd + ["-j", str(st["jobs"]), "root"],
+                                  {"sched_seed": st["sched_seed"], "script_faults": [{"nth": None, "match": b["match"], "at": b["at"], "kind": "exit"}]})
+                fired = any(e[0] == "script-fault-fired" for e in rb.events)
+                log.append((n, "broken", rb.rc, fired))
+                stats.inc("builds_failing_because_of_the_edit" if fired else "broken_edit_did_not_fail")
+                if fired and rb.rc == 0:
+                    viol = {"kind": "failed-step-ignored", "detail": "build %d: step %s failed, exit status 0" % (n, b["match"])}
+                    break
+                if fired:
+                    continue
             r = buildsim.bob(proj, cmd + ["-j", str(st["jobs"]), "root"], {"sched_seed": st["sched_seed"]})
             ran = buildsim.step_scripts(r)
             log.append((n, r.rc, sorted(s for _, s in ran)))
